@@ -255,6 +255,10 @@ CHECKS = {
         "runs": [
             {"harnesses": [H + "ZZH16bFinal"], "flags": VLQ_REDIRECT, "quick": {"T": 2}, "thorough": {"T": 3}},
             {"harnesses": [H + "ZZH16aNesting"], "flags": VLQ_REDIRECT, "quick": GEN_Q, "thorough": GEN_T},
+            # the same with plugin behaviour: a statement interceptor that pushes a context type of its own around block
+            # statements and strips expression statements from the tree (returns nil after parsing them)
+            {"harnesses": [H + "ZZH16aNesting"], "flags": VLQ_REDIRECT, "quick": dict(GEN_Q, plugctx=1, nilstmt=1, nofunc=0), "thorough": dict(GEN_Q, plugctx=1, nilstmt=1)},
+            {"harnesses": [H + "ZZH16aNesting"], "flags": VLQ_REDIRECT, "quick": {"budget": 3, "stmts": 1, "stmtmask": 96, "exprmask": 1024, "plugctx": 1, "nilstmt": 1, "atoms": 1, "maxlist": 1}, "thorough": {"budget": 4, "stmts": 1, "stmtmask": 96, "exprmask": 1024, "plugctx": 1, "nilstmt": 1, "atoms": 1, "maxlist": 1}},
             # inductive step over nesting depth: stack preset to depth 1..200, restored entry for entry
             {"harnesses": [H + "ZZH16cDepth"], "flags": VLQ_REDIRECT, "quick": dict(GEN_Q, budget=1), "thorough": GEN_Q},
             # a second parser living inside an interceptor call of the first
